@@ -54,7 +54,46 @@ fn build(p: &RefParam) -> Poplar1AggregationParam {
 }
 
 fn histories(run: &Run, bits: usize, max_set: usize, hist_len: usize, first_pool: usize) {
-    let refs = all_params(bits, max_set);
+    histories_over(run, bits, all_params(bits, max_set), hist_len, first_pool)
+}
+
+/// Parameters at deep levels around `anchor` (prefixes of up to anchor+3 bits): all subsets of size <= 2
+/// of a family of strings that agree everywhere except in one position (first bits, bits around
+/// anchor-64, the last bits), all-ones and an alternating string — so that any shortcut that looks at
+/// a window of the prefixes (truncation to a machine word, hashing of a suffix) makes two of them collide.
+fn deep_params(anchor: usize) -> Vec<RefParam> {
+    let width = anchor + 3;
+    let mut seeds: Vec<Vec<bool>> = vec![vec![false; width], vec![true; width], (0..width).map(|i| i % 2 == 1).collect()];
+    let mut pos = vec![0, 1, anchor - 1, anchor, anchor + 1];
+    for back in [8usize, 32, 64, 65, 128] {
+        if anchor >= back {
+            pos.push(anchor - back);
+            pos.push(anchor + 1 - back);
+        }
+    }
+    pos.sort();
+    pos.dedup();
+    for j in pos {
+        let mut v = vec![false; width];
+        v[j] = true;
+        seeds.push(v);
+    }
+    let mut out = vec![];
+    for level in [anchor - 1, anchor, anchor + 1, anchor + 2] {
+        let mut pre: Vec<Vec<bool>> = seeds.iter().map(|s| s[..=level].to_vec()).collect();
+        pre.sort();
+        pre.dedup();
+        for i in 0..pre.len() {
+            out.push(RefParam { level, prefixes: vec![pre[i].clone()] });
+            for j in i + 1..pre.len() {
+                out.push(RefParam { level, prefixes: vec![pre[i].clone(), pre[j].clone()] });
+            }
+        }
+    }
+    out
+}
+
+fn histories_over(run: &Run, bits: usize, refs: Vec<RefParam>, hist_len: usize, first_pool: usize) {
     let real: Vec<Poplar1AggregationParam> = refs.iter().map(build).collect();
     let n = refs.len();
     run.note(&format!("params_bits{bits}"), json!(n));
@@ -340,7 +379,7 @@ fn decoder(run: &Run, thorough: bool) {
 
 fn main() {
     let run = Run::from_args("C20", Level::ModelChecking);
-    run.rule("state = full history of aggregation parameters (bits<=3: all 273 parameters = every non-empty prefix set at every level; bits=4: sets of size <=2 plus the full set), transition = offering a candidate to the real is_agg_param_valid, invariant = agreement with the specification predicate over Vec<bool>; constructor: every list of <=3 prefixes of length 0..3; decoder: every string of the grammar with level in {0..3,6..9,15,16}, count <=4, body bytes over a 6-value alphabet, lying count fields, +-1 byte; Prio3/Prio2: histories of length 0..3");
+    run.rule("state = full history of aggregation parameters (bits<=3: all 273 parameters = every non-empty prefix set at every level; bits=4: sets of size <=2 plus the full set; deep levels around 8,64,65,128 (thorough: 7..1000): sets of size <=2 of strings that differ in a single position, histories of length 1), transition = offering a candidate to the real is_agg_param_valid, invariant = agreement with the specification predicate over Vec<bool>; constructor: every list of <=3 prefixes of length 0..3; decoder: every string of the grammar with level in {0..3,6..9,15,16}, count <=4, body bytes over a 6-value alphabet, lying count fields, +-1 byte; Prio3/Prio2: histories of length 0..3");
     let q = run.quick();
     // bits <= 3: all histories of length <= 2 followed by every candidate; thorough adds length 3
     for bits in 1..=3usize {
@@ -351,6 +390,10 @@ fn main() {
         histories(&run, 3, usize::MAX, 3, 18);
     }
     histories(&run, 4, 2, if q { 1 } else { 2 }, if q { 0 } else { 64 });
+    // deep levels (the `bits` tag of these cases is the anchor level + 3)
+    for anchor in if q { vec![8usize, 64, 65, 128] } else { vec![7, 8, 15, 16, 31, 32, 63, 64, 65, 66, 127, 128, 129, 255, 256, 1000] } {
+        histories_over(&run, anchor + 3, deep_params(anchor), 1, 0);
+    }
     constructor(&run, 3);
     decoder(&run, !q);
     // Prio3 / Prio2: only the first use is valid
